@@ -1,4 +1,5 @@
 import Pyunicorn.Model.SurrogatesWalkK
+import Pyunicorn.Lemmas.SurrogatesKernelW
 /-! C15 round 5: the loop-level model of the walk kernels on the generated expressions
 (`Model/SurrogatesWalkK.lean`) equals the abstract walk (`next`, `walkFrom`, `walkRows`,
 `walkRep` of `Model/Surrogates.lean`) for every table, every length, every cursor and every stream
@@ -179,5 +180,53 @@ theorem walkKernelR_eq (N : Nat) (tw : List (List Nat)) (u : Nat → Rat) (hu : 
   unfold walkKernelR walkRep
   rw [walkArithR_std]
   exact walkRowsK_std N u hu _ 0 c
+
+/-! ### the whole methods on the source's expressions -/
+
+theorem gatherInt_cast {α : Type} (xs : List α) (l : List Nat) :
+    gatherInt xs (l.map Int.ofNat) = gather xs l := by
+  induction l with
+  | nil => rfl
+  | cons i is ih =>
+    have hi : idxInt xs (Int.ofNat i) = xs[i]? := idxInt_natCast xs i
+    simp only [List.map_cons, gatherInt, gather, ih, hi]
+    cases xs[i]? <;> cases gather xs is <;> rfl
+
+theorem rowsM_gatherInt_cast {α : Type} (data : List (List α)) (ls : List (List Nat)) :
+    rowsM gatherInt data (ls.map (·.map Int.ofNat)) = rowsM gather data ls := by
+  induction data generalizing ls with
+  | nil => rfl
+  | cons r rs ih =>
+    cases ls with
+    | nil => rfl
+    | cons l ls => simp only [List.map_cons, rowsM, gatherInt_cast, ih]
+
+theorem mapM_gatherInt_cast {α : Type} (xs : List α) (ls : List (List Nat)) :
+    (ls.map (·.map Int.ofNat)).mapM (gatherInt xs) = ls.mapM (gather xs) := by
+  induction ls with
+  | nil => rfl
+  | cons l ls ih => simp only [List.map_cons, List.mapM_cons, gatherInt_cast, ih]
+
+theorem twinSurrogatesSrc_eq (bits : Nat) (data : List (List Rat)) (dim delay : Nat) (thr : Rat)
+    (md : Nat) (u : Nat → Rat) (hu : ∀ c, 0 ≤ u c) (g : Nat → Nat → Bool) (gn : Nat → Int) :
+    twinSurrogatesSrc bits data dim delay thr md u g gn
+      = twinSurrogatesKW bits data dim delay thr md (floorPick u) g gn := by
+  unfold twinSurrogatesSrc twinSurrogatesKW
+  cases data.mapM (embedK · dim delay) with
+  | none => rfl
+  | some embs =>
+    simp only [walkKernelS_eq _ u hu]
+    cases walkRows _ (floorPick u) (twinsMethodW bits thr md embs g gn) 0 with
+    | none => rfl
+    | some p => simp only [Option.map_some, castRows, rowsM_gatherInt_cast]
+
+theorem rpTwinSurrogatesSrc_eq (md ns : Nat) (R : List (List Bool)) (emb : List (List Rat))
+    (hS : Square R.length R) (u : Nat → Rat) (hu : ∀ c, 0 ≤ u c) :
+    rpTwinSurrogatesSrc md ns R emb u = rpTwinSurrogates md ns R emb (floorPick u) := by
+  unfold rpTwinSurrogatesSrc rpTwinSurrogates
+  rw [rpTwinsKW_eq md R hS, walkKernelR_eq _ _ u hu]
+  cases walkRep emb.length (rpTwins md R) (floorPick u) ns 0 with
+  | none => rfl
+  | some p => simp only [Option.map_some, castRows, mapM_gatherInt_cast]
 
 end Pyunicorn.Surrogates
